@@ -47,13 +47,16 @@ TextVerdict(r) ==
 Verdict(r) ==
     CASE r.k = "formula" -> FormulaVerdict(r)
       [] r.k = "text"    -> TextVerdict(r)
+      [] r.k = "bytes"   -> \* arbitrary bytes as formula and as ordering file: every action of the
+                            \* pipeline ends in Ok or Err; there is no action for a panic
+                            IF r.formula \in {"ok", "ok-evaluated", "err"} /\ r.order \in {"ok", "err"} THEN "" ELSE "panic / unknown record"
       [] OTHER           -> "panic / unknown record"
 
 Init == l = 1
 Step ==
     /\ l <= Len(Rec)
     /\ l' = l + 1
-    /\ LET v == Verdict(Rec[l]) IN v = "" \/ PrintT(<<"REJECT", l, v>>)
+    /\ LET v == Verdict(Rec[l]) IN IF v = "" THEN TRUE ELSE PrintT(<<"REJECT", l, v>>)
 Next == Step
 Spec == Init /\ [][Next]_vars
 
